@@ -12,7 +12,7 @@ import ast
 
 from ..index import AnalysisError, is_spawn, walk_no_nested
 from ..norm import Canon, Lit, Logic, ProvCanon, effects_of_event, path_effects, effects_along
-from ..paths import Frame, bind_args, cached_paths, contains_yield
+from ..paths import Ev, Frame, bind_args, cached_paths, contains_yield, is_const_true, locally_feasible
 from ..skel import outcomes
 from .common import (call_name, enclosing_loops, iteration_segments, path_must, reaching_value,
                      short, stmt_contains)
@@ -222,6 +222,12 @@ def l2(repo, res):
                     continue
                 n_back += 1
                 if not any(e.kind == 'stmt' and contains_yield(e.node) for e in seg):
+                    # `if done: continue` under `while not done:` -- what this cycle learned makes
+                    # the loop test false, so it leaves the loop instead of spinning
+                    fr0 = next((e.frame for e in seg if e.frame is not None), None)
+                    if fr0 is not None and not is_const_true(lp.test) and not locally_feasible(
+                            list(seg) + [Ev('test', lp.test, fr0, pol=True)]):
+                        continue
                     bad = seg
                     break
             what = 'while-loop at line %d: every cycle yields' % lp.lineno
